@@ -142,6 +142,7 @@ cache entry that was dropped (`Undefined` / `None` when there was none). -/
 theorem C12_announces (P : Env Val) (g : Heap → Val) (hG : PureGetter P.G g)
     (hD : DependsOnly g P.E P.root) (hS : ObserveSound P) (s : St Val) (m : Mutation)
     (hi : Inv P g s) (hL : (P.staticL || s.dyn) = true)
+    (hu : P.legacy = true → ∀ h, P.isUndef (g h) = false)
     (halt : g (apply m s.heap) ≠ g s.heap) :
     ∃ old, (mutate P s m).notes = s.notes ++ [⟨old, g (apply m s.heap), P.staticL, s.dyn⟩]
       ∧ ((P.legacy = true ∨ P.sibPre m = false) → old = popOld P s) := by
@@ -156,7 +157,11 @@ theorem C12_announces (P : Env Val) (g : Heap → Val) (hG : PureGetter P.G g)
   refine ⟨if P.legacy then popOld P s else popOld P (sib P (P.sibPre m) { s with heap := apply m s.heap }), ?_, ?_⟩
   · unfold mutate
     simp only [hch, hf, if_true]
-    exact dispatchFire_notes P g hG { s with heap := apply m s.heap } m (fun hc => hi.weak hc) hL
+    refine dispatchFire_notes P g hG { s with heap := apply m s.heap } m (fun hc => hi.weak hc) hL ?_
+    intro hl v hv
+    cases hi with
+    | inl h => rw [h] at hv; cases hv
+    | inr h => rw [h.2] at hv; cases hv; exact hu hl _
   · intro hpre
     by_cases hl : P.legacy = true
     · simp [hl]
@@ -270,9 +275,14 @@ theorem C12_nested_reads_correct_partial (P : Env Val) (g : Heap → Val) (hG : 
       split at hv
       · have i1 := popCache_inv P g { s with heap := apply m s.heap } hw0
         have i2 := sib_inv P g hG (P.sibPre m) _ i1
-        have i3 := tpc_inv P g hG _ (popOld P { s with heap := apply m s.heap }) i2
+        have i3 := legacyNotify_inv P g hG _ (popOld P { s with heap := apply m s.heap }) i2
+        have ln : ∀ (t : St Val) (o : Old Val), (legacyNotify P t o).nested = t.nested := by
+          intro t o
+          unfold legacyNotify
+          repeat' split
+          all_goals first | rfl | apply tn
         rcases sb _ _ i3 v hv with h | h
-        · rw [tn] at h
+        · rw [ln] at h
           rcases sb _ _ i1 v h with h' | h'
           · rw [pn] at h'; exact Or.inl h'
           · right; simpa using h'
